@@ -561,16 +561,16 @@ func c10Run(ctx *vc.Ctx, rep *vc.Report) {
 			}
 		}
 	}
+	// hostile client with the victim's key
+	vp := hostPieces(victimPhone)
+	for _, n := range []string{"valid-heartbeat", "frag-no0", "0200/13/empty", "0100/13/truncated", "length-lies"} {
+		runHost(hostScn{Name: "host:samekey:" + n, Pieces: []string{vp[n]}, CloseAt: 1, SameKey: true}, bound1)
+	}
 	// a platform command for the hostile client's own key races its disconnect
 	for _, n := range []string{"valid-heartbeat", "0200/13/empty"} {
 		for _, reset := range []bool{false, true} {
 			runHost(hostScn{Name: "host:cmd:" + n, Pieces: []string{pieces[n]}, CloseAt: 1, Reset: reset, CmdToHostile: true}, 2)
 		}
-	}
-	// hostile client with the victim's key
-	vp := hostPieces(victimPhone)
-	for _, n := range []string{"valid-heartbeat", "frag-no0", "0200/13/empty", "0100/13/truncated", "length-lies"} {
-		runHost(hostScn{Name: "host:samekey:" + n, Pieces: []string{vp[n]}, CloseAt: 1, SameKey: true}, bound1)
 	}
 	// ordered pairs from a sub-menu
 	var sub []string
